@@ -736,6 +736,7 @@ func (p *planner) genericWorlds() {
 		wid := fmt.Sprintf("world%d;", i)
 		orng := rand.New(rand.NewSource(wrng.Int63()))
 		if !r.Only(wid) {
+			p.nextKV += nOrders // keep the KV rotation of a replayed case
 			continue
 		}
 		for f := range w.Features {
@@ -800,12 +801,6 @@ func (p *planner) chainWorlds() {
 		w.Blobs = w.DepOrder()
 		wid := fmt.Sprintf("chain-%s;", sp.name)
 		orng := rand.New(rand.NewSource(crng.Int63()))
-		if !r.Only(wid) {
-			continue
-		}
-		for f := range w.Features {
-			r.Note("world_features", f)
-		}
 		n := len(w.Blobs)
 		var perms [][]int
 		if sp.sample == 0 {
@@ -814,6 +809,13 @@ func (p *planner) chainWorlds() {
 			for k := 0; k < sp.sample; k++ {
 				perms = append(perms, orng.Perm(n-sp.fixed))
 			}
+		}
+		if !r.Only(wid) {
+			p.nextKV += len(perms) / 8 // keep the KV rotation of a replayed case
+			continue
+		}
+		for f := range w.Features {
+			r.Note("world_features", f)
 		}
 		for pi, pm := range perms {
 			order := make([]int, 0, n)
@@ -876,6 +878,9 @@ func (p *planner) directedWorlds() {
 			wid := fmt.Sprintf("%s%d;", f.name, i)
 			orng := rand.New(rand.NewSource(drng.Int63()))
 			if !r.Only(wid) {
+				if f.kinds == nil {
+					p.nextKV += f.orders // keep the KV rotation of a replayed case
+				}
 				continue
 			}
 			for ft := range w.Features {
